@@ -91,3 +91,35 @@ def opt_or(x, default):
     if isinstance(x, Sym) and isinstance(x.ty, OptTy):
         return Ite(truth(x), x.val(), default)
     return Ite(truth(x), x, default)
+
+
+# ---------------------------------------------------------------- opaque predicates (hide / reveal)
+UNFOLD = set()     # names of predicates whose definition is revealed while evaluating the clauses of the
+                   # function under verification (set by the driver from Spec.unfold); callee contracts seen at
+                   # call sites always use the opaque atom
+_PRED_FNS = {}
+
+
+def pred(name, defn, *args):
+    """opaque predicate `name(args)`: an uninterpreted Bool atom over the argument values, or its definition
+    when revealed.  Hiding keeps VCs of the upper layers small (DESIGN: opaque / reveal)."""
+    zs = [a.e if isinstance(a, Sym) else lift(a).e for a in args]
+    key = (name, tuple(str(z.sort()) for z in zs))
+    if key not in _PRED_FNS:
+        _PRED_FNS[key] = z3.Function(f"P_{name}_{len(_PRED_FNS)}", *[z.sort() for z in zs], z3.BoolSort())
+    atom = Sym(BoolT, _PRED_FNS[key](*zs))
+    if name in UNFOLD or "*" in UNFOLD:
+        d = defn(*args)
+        # definitional link at these arguments (conservative: the atom *is* the definition)
+        LINKS.append(z3_bool(atom) == z3_bool(d))
+        return d
+    return atom
+
+
+LINKS = []
+
+
+def take_links():
+    out = list(LINKS)
+    del LINKS[:]
+    return out
